@@ -39,7 +39,7 @@ theorem xelems_run (lc : Libc) (es : List (Gap × XDoc × Gap)) (hne : es ≠ []
       xelemsOk es = true → elemsKNF (xelemsErase es) = true →
       rest.length + 1 + elemsNest (xelemsErase es) ≤ t.maxDepth →
       ∀ (tr : Option Gap) (_ : ∀ g, tr = some g → g.ok = true) (c : UInt8) (off : Nat) (rs : Bytes), ∃ t' l',
-        t'.stack = ⟨.eatws, .finish, .arr (xs ++ elemsDenote (xelemsErase es)), none⟩ :: rest ∧ Frm t t' ∧ l'.num = none ∧
+        t'.stack = ⟨.eatws, .finish, .arr (xs ++ xelemsDenote es), none⟩ :: rest ∧ Frm t t' ∧ l'.num = none ∧
         run lc t l c off (intercalateB 44 (xelemsText es) ++ (trailText tr ++ 93 :: rs)) =
           run lc t' l' 93 (off + (intercalateB 44 (xelemsText es)).length + (trailText tr).length + 1) rs := by
   induction es with
@@ -56,8 +56,8 @@ theorem xelems_run (lc : Libc) (es : List (Gap × XDoc × Gap)) (hne : es ≠ []
       · exact Or.inl ⟨h, rfl⟩
       · exact Or.inr (Or.inl ⟨h, rfl⟩)
     have ihd : XGoal lc d := ih (g1, d, g2) (by simp)
-    have hden : ∀ ys, elemsDenote (xelemsErase ((g1, d, g2) :: ys)) = d.erase.denote :: elemsDenote (xelemsErase ys) := by
-      intro ys; simp [xelemsErase, elemsDenote]
+    have hden : ∀ ys, xelemsDenote ((g1, d, g2) :: ys) = d.denote :: xelemsDenote ys := by
+      intro ys; simp [xelemsDenote]
     cases r with
     | nil =>
       cases tr with
@@ -67,11 +67,11 @@ theorem xelems_run (lc : Libc) (es : List (Gap × XDoc × Gap)) (hne : es ≠ []
           simp [intercalateB, xelemsText, trailText]
         obtain ⟨t2, l2, c2, hs2, f2, _, hl2, hrun⟩ := xchild_value lc d ihd g1 g2 t l hwf hv hhs hl0 hns sv .arrayAdd hsv' (.arr xs)
           none rest hs hok.1.1.1 hok.1.2 hok.1.1.2 hknf.1 (by omega) 93 (by simp) rs c off
-        have h3 := after_elem_close lc t2 l2 (f2.noVal hv) d.erase.denote none sv xs none rest hs2 c2
+        have h3 := after_elem_close lc t2 l2 (f2.noVal hv) d.denote none sv xs none rest hs2 c2
           (off + g1.text.length + d.text.length + g2.text.length) rs
         simp only [List.cons_append, List.nil_append, lastOr, List.getLast?_singleton, Option.getD_some, List.length_singleton] at h3
         rw [e0, hrun, h3, hden]
-        refine ⟨{ t2 with stack := ⟨.eatws, .finish, .arr (xs ++ [d.erase.denote]), none⟩ :: rest }, l2, by simp [xelemsErase, elemsDenote],
+        refine ⟨{ t2 with stack := ⟨.eatws, .finish, .arr (xs ++ [d.denote]), none⟩ :: rest }, l2, by simp [xelemsDenote],
           ⟨f2.md, f2.fl, f2.hs⟩, hl2, ?_⟩
         simp only [intercalateB, xelemsText, List.length_append, trailText, List.length_nil]
         congr 1
@@ -83,22 +83,22 @@ theorem xelems_run (lc : Libc) (es : List (Gap × XDoc × Gap)) (hne : es ≠ []
           simp [intercalateB, xelemsText, trailText]
         obtain ⟨t2, l2, c2, hs2, f2, _, hl2, hrun⟩ := xchild_value lc d ihd g1 g2 t l hwf hv hhs hl0 hns sv .arrayAdd hsv' (.arr xs)
           none rest hs hok.1.1.1 hok.1.2 hok.1.1.2 hknf.1 (by omega) 44 (by simp) (g.text ++ 93 :: rs) c off
-        have h3 := after_elem_comma lc t2 l2 (f2.noVal hv) d.erase.denote none sv xs none rest hs2 c2
+        have h3 := after_elem_comma lc t2 l2 (f2.noVal hv) d.denote none sv xs none rest hs2 c2
           (off + g1.text.length + d.text.length + g2.text.length) (g.text ++ 93 :: rs)
         simp only [List.cons_append, List.nil_append, lastOr, List.getLast?_singleton, Option.getD_some, List.length_singleton] at h3
-        let t3 : Tok := { t2 with stack := ⟨.eatws, .arrayAfterSep, .arr (xs ++ [d.erase.denote]), none⟩ :: rest }
+        let t3 : Tok := { t2 with stack := ⟨.eatws, .arrayAfterSep, .arr (xs ++ [d.denote]), none⟩ :: rest }
         have f3 : Frm t t3 := ⟨f2.md, f2.fl, f2.hs⟩
         have hwf3 : WF t3 := wf_restack hwf hs rfl f2.md (topOk_container _ _ (Or.inl ⟨rfl, _, rfl⟩))
           (posOk_of_ne (by simp) (by simp) (by simp))
-        obtain ⟨t4, c4, hs4, f4, _, hr4⟩ := run_gap lc t3 l2 .arrayAfterSep (.arr (xs ++ [d.erase.denote])) none rest hwf3 rfl
+        obtain ⟨t4, c4, hs4, f4, _, hr4⟩ := run_gap lc t3 l2 .arrayAfterSep (.arr (xs ++ [d.denote])) none rest hwf3 rfl
           (f3.noVal hv) f3.hs g hg (Or.inl (by rw [f3.strict]; exact hns)) 44
           (off + g1.text.length + d.text.length + g2.text.length + 1) (93 :: rs)
         have f4' : Frm t t4 := f3.trans f4
-        have h5 := close_after_sep_array lc t4 l2 (f4'.noVal hv) (by rw [f4'.strict]; exact hns) (xs ++ [d.erase.denote]) none rest hs4 c4
+        have h5 := close_after_sep_array lc t4 l2 (f4'.noVal hv) (by rw [f4'.strict]; exact hns) (xs ++ [d.denote]) none rest hs4 c4
           (off + g1.text.length + d.text.length + g2.text.length + 1 + g.text.length) rs
         simp only [List.cons_append, List.nil_append, lastOr, List.getLast?_singleton, Option.getD_some, List.length_singleton] at h5
         rw [e0, hrun, h3, hr4, h5]
-        refine ⟨{ t4 with stack := ⟨.eatws, .finish, .arr (xs ++ [d.erase.denote]), none⟩ :: rest }, l2, by simp [xelemsErase, elemsDenote],
+        refine ⟨{ t4 with stack := ⟨.eatws, .finish, .arr (xs ++ [d.denote]), none⟩ :: rest }, l2, by simp [xelemsDenote],
           ⟨f4'.md, f4'.fl, f4'.hs⟩, hl2, ?_⟩
         simp only [intercalateB, xelemsText, List.length_append, trailText, List.length_cons]
         congr 1
@@ -111,15 +111,15 @@ theorem xelems_run (lc : Libc) (es : List (Gap × XDoc × Gap)) (hne : es ≠ []
       obtain ⟨t2, l2, c2, hs2, f2, _, hl2, hrun⟩ := xchild_value lc d ihd g1 g2 t l hwf hv hhs hl0 hns sv .arrayAdd hsv' (.arr xs)
         none rest hs hok.1.1.1 hok.1.2 hok.1.1.2 hknf.1 (by omega) 44 (by simp)
         (intercalateB 44 (xelemsText (e2 :: r2)) ++ (trailText tr ++ 93 :: rs)) c off
-      have h3 := after_elem_comma lc t2 l2 (f2.noVal hv) d.erase.denote none sv xs none rest hs2 c2
+      have h3 := after_elem_comma lc t2 l2 (f2.noVal hv) d.denote none sv xs none rest hs2 c2
         (off + g1.text.length + d.text.length + g2.text.length) (intercalateB 44 (xelemsText (e2 :: r2)) ++ (trailText tr ++ 93 :: rs))
       simp only [List.cons_append, List.nil_append, lastOr, List.getLast?_singleton, Option.getD_some, List.length_singleton] at h3
-      let t3 : Tok := { t2 with stack := ⟨.eatws, .arrayAfterSep, .arr (xs ++ [d.erase.denote]), none⟩ :: rest }
+      let t3 : Tok := { t2 with stack := ⟨.eatws, .arrayAfterSep, .arr (xs ++ [d.denote]), none⟩ :: rest }
       have f3 : Frm t t3 := ⟨f2.md, f2.fl, f2.hs⟩
       have hwf3 : WF t3 := wf_restack hwf hs rfl f2.md (topOk_container _ _ (Or.inl ⟨rfl, _, rfl⟩))
         (posOk_of_ne (by simp) (by simp) (by simp))
       obtain ⟨t4, l4, hs4, f4, hl4, hrun4⟩ := ihr (by simp) (fun e he => ih e (by simp [he])) t3 l2 .arrayAfterSep (Or.inr rfl)
-        (xs ++ [d.erase.denote]) rest hwf3 rfl (f3.noVal hv) f3.hs hl2 (by rw [f3.strict]; exact hns) hok.2 hknf.2
+        (xs ++ [d.denote]) rest hwf3 rfl (f3.noVal hv) f3.hs hl2 (by rw [f3.strict]; exact hns) hok.2 hknf.2
         (by rw [f3.md]; omega) tr htr 44 (off + g1.text.length + d.text.length + g2.text.length + 1) rs
       rw [e0, hrun, h3, hrun4]
       refine ⟨t4, l4, ?_, f3.trans f4, hl4, ?_⟩
